@@ -1,4 +1,14 @@
 //! C03 / C04 / C09: the real `CircuitBreakerLayer` (with and without fallback) over the scripted inner service.
+//!
+//! header options (defaults leave old op files their meaning):
+//!   listen=0   the breaker is built with NO event listener at all: the log has no `transition` lines, the breaker is observed
+//!              only through results, `state()` / metrics probes and the inner calls
+//!   early=<k>  (with `fallback=1`) bit 0: a clone of the plain breaker taken BEFORE `with_fallback` is kept (an operator's /
+//!              health check's handle) and every manual override and probe goes through that earlier clone; bit 1: the fallback
+//!              is attached only when the first request arrives — overrides and probes before that act on the plain breaker
+//!   tick=us    one clock tick is 1 µs: `wait`, `wdur`, `slow` are in ticks (`world::ticks`); the breaker is timed by
+//!              `std::time::Instant` alone. Scripted latencies (`inner=`, `fb=`) stay in MILLISECONDS: they are tokio timers,
+//!              which fire at the first millisecond boundary >= start + latency.
 use crate::world::*;
 use futures::future::BoxFuture;
 use futures::FutureExt;
@@ -96,22 +106,102 @@ fn views(state: CircuitState, sync: CircuitState, is_open: bool, m: CircuitMetri
 
 const BLOCKED: &str = "blocked";
 
+macro_rules! ctl_on {
+    ($svc:expr, $what:expr) => {{
+        let svc = $svc;
+        match $what {
+            // an observer / operator is never made to wait by the breaker: each of these takes the breaker's mutex
+            // for one short critical section. "blocked" = the mutex is held across somebody's await.
+            "force_open" => svc.force_open().now_or_never().map_or(BLOCKED.to_string(), |_| String::new()),
+            "force_closed" => svc.force_closed().now_or_never().map_or(BLOCKED.to_string(), |_| String::new()),
+            "reset" => svc.reset().now_or_never().map_or(BLOCKED.to_string(), |_| String::new()),
+            _ => match (svc.state().now_or_never(), svc.metrics().now_or_never()) {
+                (Some(state), Some(m)) => views(state, svc.state_sync(), svc.is_open(), m),
+                _ => BLOCKED.to_string(),
+            },
+        }
+    }};
+}
+
 macro_rules! controls {
     ($svc:expr) => {{
         let svc = $svc.clone();
-        Box::new(move |what: &str| -> String {
-            match what {
-                // an observer / operator is never made to wait by the breaker: each of these takes the breaker's mutex
-                // for one short critical section. "blocked" = the mutex is held across somebody's await.
-                "force_open" => svc.force_open().now_or_never().map_or(BLOCKED.to_string(), |_| String::new()),
-                "force_closed" => svc.force_closed().now_or_never().map_or(BLOCKED.to_string(), |_| String::new()),
-                "reset" => svc.reset().now_or_never().map_or(BLOCKED.to_string(), |_| String::new()),
-                _ => match (svc.state().now_or_never(), svc.metrics().now_or_never()) {
-                    (Some(state), Some(m)) => views(state, svc.state_sync(), svc.is_open(), m),
-                    _ => BLOCKED.to_string(),
-                },
-            }
-        }) as Box<dyn Fn(&str) -> String>
+        Box::new(move |what: &str| -> String { ctl_on!(&svc, what) }) as Box<dyn Fn(&str) -> String>
+    }};
+}
+
+/// The fallback variant. `early` bit 0: manual overrides and probes go through a clone of the plain breaker taken before
+/// `with_fallback`; bit 1: `with_fallback` happens when the first request arrives, until then the operator acts on the plain
+/// breaker. Whatever the order, there is ONE breaker: the fallback service shares the state of the breaker it was made from.
+macro_rules! with_fb {
+    ($plain:expr, $fb:expr, $early:expr) => {{
+        let early: u64 = $early;
+        let plain = $plain;
+        let fb = $fb;
+        let operator = if early & 1 == 1 { Some(plain.clone()) } else { None };
+        let pending = std::rc::Rc::new(std::cell::RefCell::new(Some(plain)));
+        let attached = std::rc::Rc::new(std::cell::RefCell::new(None));
+        let attach: std::rc::Rc<dyn Fn()> = {
+            let (pending, attached) = (pending.clone(), attached.clone());
+            std::rc::Rc::new(move || {
+                let p = pending.borrow_mut().take();
+                if let Some(p) = p {
+                    *attached.borrow_mut() = Some(p.with_fallback(fb));
+                }
+            })
+        };
+        if early & 2 == 0 {
+            attach();
+        }
+        let call = {
+            let (attach, attached) = (attach.clone(), attached.clone());
+            Box::new(move |req: Req| -> Option<CallFut> {
+                attach();
+                let mut s = attached.borrow().as_ref().expect("attached").clone();
+                let c = req.c;
+                match poll_ready_once(&mut s) {
+                    std::task::Poll::Ready(Ok(())) => {}
+                    _ => {
+                        log(format!("result {} notready", c));
+                        return None;
+                    }
+                }
+                let fut = s.call(req);
+                Some(held(fut, render))
+            }) as Box<dyn FnMut(Req) -> Option<CallFut>>
+        };
+        let ctl = {
+            let (pending, attached) = (pending.clone(), attached.clone());
+            Box::new(move |what: &str| -> String {
+                if let Some(o) = operator.as_ref() {
+                    return ctl_on!(o, what);
+                }
+                if let Some(p) = pending.borrow().as_ref() {
+                    return ctl_on!(p, what);
+                }
+                let a = attached.borrow();
+                ctl_on!(a.as_ref().expect("attached"), what)
+            }) as Box<dyn Fn(&str) -> String>
+        };
+        let req = {
+            let (attach, attached) = (attach.clone(), attached.clone());
+            std::rc::Rc::new(move |c: usize, kv: &Kv| -> Option<CallFut> {
+                if let Some(step) = kv.get("fb").and_then(|s| parse_plan(s).pop_front()) {
+                    FB.lock().unwrap_or_else(|e| e.into_inner()).insert(c, step);
+                }
+                attach();
+                let mut s = attached.borrow().as_ref().expect("attached").clone();
+                match poll_ready_once(&mut s) {
+                    std::task::Poll::Ready(Ok(())) => {}
+                    _ => {
+                        log(format!("result {} notready", c));
+                        return None;
+                    }
+                }
+                Some(held(s.call(Req::new(c, kv)), render))
+            }) as Requester
+        };
+        Adapter { call, ctl, req }
     }};
 }
 
@@ -165,23 +255,26 @@ impl Adapter {
             .failure_rate_threshold(frac(kv, "fr", (1, 2)))
             .sliding_window_size(kv.u64("size", 10) as usize)
             // `wait=max`: "stay open until a manual reset" — the largest representable duration
-            .wait_duration_in_open(if kv.str("wait", "") == "max" { Duration::MAX } else { Duration::from_millis(kv.u64("wait", 1000)) })
-            .permitted_calls_in_half_open(kv.u64("permitted", 1) as usize)
-            .on_state_transition(|from, to| log(format!("transition {} {}", st(from), st(to))));
+            .wait_duration_in_open(if kv.str("wait", "") == "max" { Duration::MAX } else { ticks(kv.u64("wait", 1000)) })
+            .permitted_calls_in_half_open(kv.u64("permitted", 1) as usize);
+        if kv.u64("listen", 1) != 0 {
+            b = b.on_state_transition(|from, to| log(format!("transition {} {}", st(from), st(to))));
+        }
         if kv.str("wtype", "count") == "time" {
             b = b
                 .sliding_window_type(SlidingWindowType::TimeBased)
-                .sliding_window_duration(Duration::from_millis(kv.u64("wdur", 1000)));
+                .sliding_window_duration(ticks(kv.u64("wdur", 1000)));
         }
         if let Some(m) = kv.opt_u64("min") {
             b = b.minimum_number_of_calls(m as usize);
         }
-        if let Some(ms) = kv.opt_u64("slow") {
+        if let Some(n) = kv.opt_u64("slow") {
             b = b
-                .slow_call_duration_threshold(Duration::from_millis(ms))
+                .slow_call_duration_threshold(ticks(n))
                 .slow_call_rate_threshold(frac(kv, "sr", (1, 1)));
         }
         let fallback = kv.u64("fallback", 0) == 1;
+        let early = kv.u64("early", 0);
         let fb = |req: Req| -> BoxFuture<'static, Result<Resp, IErr>> {
             let step = FB.lock().unwrap_or_else(|e| e.into_inner()).remove(&req.c).unwrap_or(Step { lat: 0, out: Out::Ok });
             log(format!("fallback_call {}", req.c));
@@ -191,8 +284,7 @@ impl Adapter {
         if cls == 0 {
             let svc = b.build().layer_fn(Inner::new());
             if fallback {
-                let svc = svc.with_fallback(fb);
-                Adapter { call: caller!(svc), ctl: controls!(svc), req: requester!(svc) }
+                with_fb!(svc, fb, early)
             } else {
                 Adapter { call: caller!(svc), ctl: controls!(svc), req: requester!(svc) }
             }
@@ -206,8 +298,7 @@ impl Adapter {
             });
             let svc = b.build().layer_fn(Inner::new());
             if fallback {
-                let svc = svc.with_fallback(fb);
-                Adapter { call: caller!(svc), ctl: controls!(svc), req: requester!(svc) }
+                with_fb!(svc, fb, early)
             } else {
                 Adapter { call: caller!(svc), ctl: controls!(svc), req: requester!(svc) }
             }
